@@ -77,6 +77,9 @@ T = {
  "C16e": ("C16", "lagrange_taps takes the 1-(d/j)^2 factors from a table that stops at j=50", "order >= 103 with a fractional shift", [], ""),
  "C17e": ("C17", "coloured generators derive their white-noise seed with hash() of a tuple containing a str (salted per process)", "two instances in different interpreter processes", [], "needed the cross-process part of C17"),
  "C19e": ("C19", "df_detrend collects results in a helper frame built without the original index", "a DataFrame whose index is not 0..n-1", [], "needed frames with float / datetime / shuffled / sliced indexes"),
+ "C14e": ("C14", "CUDA host wrappers cache device copies of the input keyed by (host pointer, length)", "cuda backend, the same contiguous float64 buffer refilled in place and analysed again", [], "needed the in-place buffer refill histories of C14"),
+ "C14f": ("C14", "plan() re-plans when a stored parameter signature differs; with force_target_nf the signature is taken before Jdes is overwritten", "force_target_nf=True and more than one plan()/compute() on one analyzer", [], ""),
+ "C17f": ("C17", "cascade kernel processes 65536-sample blocks; the tail restarts from the state before the call", "one request (or cascade call) of n > 65536 samples, n not a multiple of 65536", [], "scale-dependent: needed the long-request part of C17"),
  "C20b": ("C20", "class-level default _cache plus __getstate__ dropping _cache: clones share one cache", "clones of two different results in one process", [], ""),
 }
 
